@@ -14,10 +14,11 @@ TConfig == Step /\ e.ev = "config" /\ UNCHANGED vars
 TReset == /\ Step /\ e.ev = "reset"
           /\ hs' = [i \in H |-> "closed"] /\ exists' = FALSE /\ corrupt' = FALSE /\ npub' = 0 /\ UNCHANGED hist
 TOpen == /\ Step /\ e.ev = "hopen" /\ e.id \in H /\ hs[e.id] = "closed"
-         /\ (e.res = OpenResult(e.mode, e.create, e.check)) = TRUE
+         /\ (e.res = OpenResult(e.mode, e.create, e.check, e.recover)) = TRUE
          /\ hs' = IF e.res = "" THEN [hs EXCEPT ![e.id] = e.mode] ELSE hs
          /\ exists' = (exists \/ e.create)
-         /\ UNCHANGED <<corrupt, npub, hist>>
+         /\ corrupt' = (corrupt /\ ~Repairs(e.mode, e.create, e.check, e.recover))
+         /\ UNCHANGED <<npub, hist>>
 TClose == /\ Step /\ e.ev = "hclose" /\ e.id \in H /\ hs[e.id] # "closed" /\ e.err = ""
           /\ hs' = [hs EXCEPT ![e.id] = "closed"]
           /\ UNCHANGED <<exists, corrupt, npub, hist>>
